@@ -34,17 +34,17 @@ def scope(tier):
         tiny=dict(sizes=[[1, 1], [2, 1], [1, 2], [3, 1], [1, 3]],
                   max_dead_links=3 if q else 4, max_dead_chips=1,
                   tiebreak_bound=1 if q else 2,
-                  bound0_from_links=3 if q else 5),
+                  bound0_from_links=3),
         small=dict(sizes=[[2, 2], [4, 1], [1, 4]], max_dead_links=2 if q else 3,
                    max_dead_chips=1, tiebreak_bound=0 if q else 1),
-        t32=dict(sizes=[[3, 2], [2, 3]], max_dead_links=1 if q else 3,
+        t32=dict(sizes=[[3, 2], [2, 3]], max_dead_links=1 if q else 2,
                  max_dead_chips=1, tiebreak_bound=1 if q else 0),
         t33=dict(sizes=[[3, 3]], max_dead_links=1 if q else 2,
                  max_dead_chips=1, tiebreak_bound=0),
         m33=dict(sizes=[[3, 3]], mesh=True, max_dead_links=1 if q else 2,
-                 max_dead_chips=1, max_sinks=3, tiebreak_bound=0 if q else 1),
+                 max_dead_chips=1, max_sinks=3, tiebreak_bound=0),
         m44=dict(sizes=[[4, 4]], mesh=True, max_dead_links=0 if q else 1,
-                 max_dead_chips=1 if q else 2, tiebreak_bound=0),
+                 max_dead_chips=1, tiebreak_bound=0),
         almost=dict(sizes=[[3, 3]], forced_dead_wrap=3,
                     max_dead_links=1 if q else 2, max_dead_chips=0,
                     tiebreak_bound=0 if q else 1),
@@ -52,15 +52,16 @@ def scope(tier):
         # first (real router, default tie-breaks); then every subset S of the
         # tree's own links (|S| <= max_tree_links) is killed together with
         # every set X of <= extra_links other links
-        tf33=dict(sizes=[[3, 3]], max_dead_chips=1, max_tree_links=3,
-                  extra_links=0 if q else 1, max_sinks=2, tiebreak_bound=1),
+        tf33=dict(sizes=[[3, 3]], max_dead_chips=1,
+                  max_tree_links=3 if q else 4,
+                  extra_links=0, max_sinks=2, tiebreak_bound=1),
         tf33m=dict(sizes=[[3, 3]], mesh=True, max_dead_chips=1,
-                   max_tree_links=3, extra_links=0 if q else 1, max_sinks=2,
+                   max_tree_links=3 if q else 4, extra_links=0, max_sinks=2,
                    tiebreak_bound=1),
         tf33x=dict(sizes=[[3, 3]], max_dead_chips=1, exact_tree_links=2,
-                   extra_links=1, max_sinks=1, tiebreak_bound=1,
+                   extra_links=1, max_sinks=1 if q else 2, tiebreak_bound=1,
                    radii=[20]),
-        tf44m=dict(sizes=[[4, 4]], mesh=True, max_dead_chips=0 if q else 1,
+        tf44m=dict(sizes=[[4, 4]], mesh=True, max_dead_chips=0,
                    max_tree_links=2 if q else 3, extra_links=0,
                    max_sinks=2, tiebreak_bound=0 if q else 1),
         # "walls": every link crossing between two columns (or rows) is dead
